@@ -3,13 +3,18 @@
     PROVED (closed by [exact]; spec/RoundFacts.v): every finite non-negative bit pattern is a fixed
     point of the oracle ([RN_fixpoint]: RN f (value x) = x, which covers the exact expansion);
     decoding/encoding round trips; RN depends on the rational value only ([RN_Qeq]).
-    The 9/17-digit sufficiency (Matula) is NOT proved here; shortest / 9-17 digit renderings come
-    from Rust's own formatter and are run through the real code on every run. *)
+    9/17-digit sufficiency IS proved at the oracle level (spec/DigitsSuffice.v): any decimal within
+    half a unit in the 17th (f64) / 9th (f32) significant digit of a finite positive float rounds back
+    to it ([digits_suffice_F64/F32], from [close_rounds_back]: |d - X| < X * 2^-(prec+1) suffices, also
+    at powers of two and for subnormals), and a decimal of at most 17 / 9 digits with that property
+    exists ([exists_short_decimal]) - so the shortest identifying string exists and has <= 17 / 9 digits.
+    Shortest / 9-17 digit renderings come from Rust's own formatter and are run through the real code
+    on every run; for the fast-path class the round trip is closed end to end ([fast_class_roundtrip_exact]). *)
 
 From Coq Require Import ZArith QArith List Bool Reals.
 From Coq Require Import Floats.SpecFloat.
 From Flocq Require Import Core.Core.
-From ML Require Import base.RustSem model.Fmt model.FloatOps model.Number model.Parse model.Top spec.Decimal spec.Round spec.RoundFacts
+From ML Require Import base.RustSem model.Fmt model.FloatOps model.Number model.Parse model.Top spec.Decimal spec.Round spec.RoundFacts spec.DigitsSuffice
   gen.Consts gen.Tables gen.BTables gen.PowDump proofs.ParseFacts proofs.Glue proofs.NoUB proofs.FastPathFacts proofs.EndToEnd.
 Import ListNotations.
 
@@ -40,6 +45,60 @@ Theorem C03_RN_Qeq :
   forall f : format, sfmt_ok f = true -> forall v v' : Q, (0 <= v)%Q -> v == v' -> RN f v = RN f v'.
 Proof. exact RN_Qeq. Qed.
 
+Theorem C03_close_rounds_back :
+  forall f : format,
+         sfmt_ok f = true ->
+         forall (x : Z) (d : Q),
+         0 < x < inf_bits f ->
+         (Qabs.Qabs (d - value_Q f x) < value_Q f x * pow2Q (- (prec f + 1)))%Q -> RN f d = x.
+Proof. exact close_rounds_back. Qed.
+
+Theorem C03_digits_suffice :
+  forall f : format,
+         sfmt_ok f = true ->
+         forall (n x e10 : Z) (d : Q),
+         2 ^ prec f < 10 ^ (n - 1) ->
+         0 < x < inf_bits f ->
+         (pow10Q e10 <= value_Q f x)%Q ->
+         (Qabs.Qabs (d - value_Q f x) <= pow10Q (e10 - n + 1) * (1 # 2))%Q -> RN f d = x.
+Proof. exact digits_suffice. Qed.
+
+Theorem C03_digits_suffice_F64 :
+  forall (x e10 : Z) (d : Q),
+         0 < x < inf_bits F64 ->
+         (pow10Q e10 <= value_Q F64 x)%Q ->
+         (Qabs.Qabs (d - value_Q F64 x) <= pow10Q (e10 - 17 + 1) * (1 # 2))%Q -> RN F64 d = x.
+Proof. exact digits_suffice_F64. Qed.
+
+Theorem C03_digits_suffice_F32 :
+  forall (x e10 : Z) (d : Q),
+         0 < x < inf_bits F32 ->
+         (pow10Q e10 <= value_Q F32 x)%Q ->
+         (Qabs.Qabs (d - value_Q F32 x) <= pow10Q (e10 - 9 + 1) * (1 # 2))%Q -> RN F32 d = x.
+Proof. exact digits_suffice_F32. Qed.
+
+Theorem C03_exists_short_decimal_F64 :
+  forall x : Z,
+         0 < x < inf_bits F64 ->
+         exists c j : Z,
+           10 ^ 16 <= c < 10 ^ 17 /\
+           (Qabs.Qabs (inject_Z c * pow10Q j - value_Q F64 x) <= pow10Q j * (1 # 2))%Q /\
+           RN F64 (inject_Z c * pow10Q j) = x.
+Proof. exact exists_short_decimal_F64. Qed.
+
+Theorem C03_exists_short_decimal_F32 :
+  forall x : Z,
+         0 < x < inf_bits F32 ->
+         exists c j : Z,
+           10 ^ 8 <= c < 10 ^ 9 /\
+           (Qabs.Qabs (inject_Z c * pow10Q j - value_Q F32 x) <= pow10Q j * (1 # 2))%Q /\
+           RN F32 (inject_Z c * pow10Q j) = x.
+Proof. exact exists_short_decimal_F32. Qed.
+
+Theorem C03_RN_zero :
+  forall f : format, RN f 0 = 0.
+Proof. exact RN_zero. Qed.
+
 Theorem C03_fast_class_roundtrip_exact :
   forall (c : config) (f : format) (b : build) (BT : btables) (L : limits) (i fr : list Z) (e x : Z),
          In c ALL_CONFIGS ->
@@ -53,4 +112,11 @@ Print Assumptions C03_RN_fixpoint.
 Print Assumptions C03_decode_valid.
 Print Assumptions C03_sf_of_bits_of_sf.
 Print Assumptions C03_RN_Qeq.
+Print Assumptions C03_close_rounds_back.
+Print Assumptions C03_digits_suffice.
+Print Assumptions C03_digits_suffice_F64.
+Print Assumptions C03_digits_suffice_F32.
+Print Assumptions C03_exists_short_decimal_F64.
+Print Assumptions C03_exists_short_decimal_F32.
+Print Assumptions C03_RN_zero.
 Print Assumptions C03_fast_class_roundtrip_exact.
